@@ -3,6 +3,10 @@ import TantivyModel.Proofs.QueryLists
 import TantivyModel.Proofs.PhraseSlop
 import TantivyModel.Proofs.OrderEnc
 import TantivyModel.Proofs.LeafTree
+import TantivyModel.Proofs.JsonRange
+import TantivyModel.Proofs.PhraseAlign
+import TantivyModel.Proofs.PhraseExact
+import TantivyModel.Gen.PhraseScorer
 /-!
 # C03 — Queries match exactly the documents their logical meaning prescribes
 
@@ -149,6 +153,15 @@ theorem C03_compileTop_sound_partial (cls : LeafCls) (guard : Bool) (scoring : B
     simp only [compileTop, sem]
     rw [mem_complex_eq_boolSem scoring docs.length d hd, ih]
 
+/-- a scorer tree is iterated in strictly increasing doc-id order, without duplicates, below
+`max_doc` (the DocSet contract the collectors rely on; the iteration mechanics are C13's) -/
+theorem C03_interp_sorted (n : Nat) (t : STree) :
+    (interp n t).Pairwise (· < ·) ∧ ∀ d ∈ interp n t, d < n := by
+  unfold interp
+  refine ⟨List.Pairwise.filter _ List.pairwise_lt_range, ?_⟩
+  intro d hd
+  exact List.mem_range.mp (List.mem_filter.mp hd).1
+
 /-! ## F4: the single-clause shortcut and `minimum_number_should_match`
 
 `guard` says whether the `weights.len() == 1` branch of `BooleanWeight::scorer` honours the
@@ -265,6 +278,40 @@ theorem C03_count_shortcut_sound (cls : LeafCls) (guard : Bool) (s : Seg) (q : Q
     simp [aliveAt, List.getD_eq_getElem?_getD, List.getElem?_eq_getElem hd] at this ⊢
     exact this
   exact ⟨by unfold weightCount; simp [hnodel, key], key⟩
+
+/-- `docsWhere` keeps as many doc ids as there are documents satisfying the predicate -/
+theorem length_docsWhere (docs : List ADoc) (p : ADoc → Bool) :
+    (docsWhere docs p).length = (docs.filter p).length := by
+  unfold docsWhere
+  rw [List.length_map, ← List.countP_eq_length_filter, ← List.countP_eq_length_filter]
+  have h : docs.countP p = (docs.zipIdx.map Prod.fst).countP p := by rw [List.zipIdx_map_fst]
+  rw [h, List.countP_map]
+  rfl
+
+/-- `TermWeight::count`: on a segment without deleted documents the `doc_freq` shortcut is the
+number of documents the term query collects (what `Count` / `Query::count` report for a term) -/
+theorem C03_term_count_shortcut (guard : Bool) (s : Seg) (hw : DocsWf s.docs)
+    (hlen : s.alive.length = s.docs.length) (hnodel : s.alive.all id = true) (f : Nat) (t : Bytes) :
+    termCountShortcut s f t = collectCount leafTree guard false s (.leaf (.term f t))
+      ∧ termCountShortcut s f t = (s.docs.filter (fun d => hasTerm d f t)).length := by
+  have hcs := C03_count_shortcut_sound leafTree guard s (.leaf (.term f t)) hlen hnodel
+  have hsound := C03_compile_sound_partial leafTree guard false false s.docs
+    (leafTree_soundOn s.docs hw) (.leaf (.term f t)) (by simp [okQ, leafOk])
+  have hl := congrArg List.length hsound
+  rw [List.length_map] at hl
+  have hsome : ((interp s.docs.length (compile leafTree guard false s.docs false (.leaf (.term f t)))).filterMap
+      (fun d => s.docs[d]?.map (·.id))).length
+      = (interp s.docs.length (compile leafTree guard false s.docs false (.leaf (.term f t)))).length := by
+    apply length_filterMap_of_isSome
+    intro d hd
+    have hdn := (C03_interp_sorted s.docs.length _).2 d hd
+    simp [List.getElem?_eq_getElem hdn]
+  have hfreq : termCountShortcut s f t = (s.docs.filter (fun d => hasTerm d f t)).length := by
+    unfold termCountShortcut; exact length_docsWhere s.docs _
+  have hsem : (s.docs.filter (sem (.leaf (.term f t)))).length = (s.docs.filter (fun d => hasTerm d f t)).length := by
+    congr 1
+  refine ⟨?_, hfreq⟩
+  rw [hfreq, ← hcs.2, ← hsome, hl, hsem]
 
 /-! ## whole searcher = specification; independence of segmentation and of other deletes -/
 
@@ -413,6 +460,227 @@ theorem C03_range_paths_agree (w : Nat) (lo hi : BndN) (v : Nat) (hv : v < 256 ^
   cases lo <;> cases hi <;> simp only [bndBe, bndBelow] at hlo hhi ⊢ <;>
     simp [L, R, hlo, hhi] <;> rw [Bool.eq_iff_iff] <;> simp <;> omega
 
+/-! ## the phrase scorer's per-document state -/
+
+/-- does `compute_phrase_match` clear `left_slops` before folding a document's terms? (read from
+the source by `extract/items/boolweight.py`; the extraction fails if the reset moves) -/
+def phraseSlopsReset : Bool := Gen.PHRASE_LEFT_SLOPS_RESET_AT_START == 1
+
+/-- a sloppy phrase scorer driven over any sequence of candidate documents, from any initial
+state: with the reset at the start of `compute_phrase_match` (the extracted guard) the answer for
+each document is the per-document function `phraseOff` / `phraseOn` — nothing leaks from one
+document to the next, on the scoring and on the no-scoring path. (This is what allows `leafTree`
+and the harness to evaluate the slop algorithms document by document.) -/
+theorem C03_phrase_slops_no_leak (hreset : phraseSlopsReset = true) (slop : Nat)
+    (docs : List (List (List Nat))) (st : List Nat) :
+    PhraseSlop.runSteps (PhraseSlop.offStep phraseSlopsReset slop) st docs = docs.map (PhraseSlop.phraseOff · slop)
+      ∧ PhraseSlop.runSteps (PhraseSlop.onStep phraseSlopsReset slop) st docs
+          = docs.map (PhraseSlop.phraseOn · slop) := by
+  rw [hreset]
+  exact PhraseSlop.runSteps_reset slop docs st
+
+/-- the guard holds for the source as it is now -/
+theorem C03_phrase_slops_reset_extracted : phraseSlopsReset = true := by decide
+
+/-- without the reset the carried slops of "a b … c" (document 1) make the scorer miss the exact
+occurrence "a b c" in document 2 on the no-scoring path -/
+theorem C03_phrase_slops_leak_counterexample :
+    PhraseSlop.runSteps (PhraseSlop.offStep false 1) [] [[[0], [1], [5]], [[3], [4], [4]]] = [false, false]
+      ∧ [[[0], [1], [5]], [[3], [4], [4]]].map (PhraseSlop.phraseOff · 1) = [false, true] := by
+  decide
+
+/-! ## exact phrases of any length: the sorted-merge intersections -/
+
+/-- slop 0, any number (≥ 2) of terms, in whatever order the scorer processes them (a permutation
+`ls'` of the adjusted position lists `ls`, each increasing): folding the lists with `intersection`
+and finishing with `intersection_exists` (scoring off) or `intersection_count > 0` (scoring on)
+decides exactly "one value is common to all lists" = `phraseExact` — the two real paths agree
+with each other and with the meaning, for every phrase length (contrast: slop ≥ 1 with ≥ 3 terms,
+`C03_phrase_slop3_inconsistent`). `leafTree` runs these algorithms in cost order. -/
+theorem C03_phrase_exact_any_terms (ls ls' : List (List Nat)) (hlen : 2 ≤ ls.length)
+    (hsorted : ∀ l ∈ ls, l.Pairwise (· ≤ ·)) (hperm : ls'.Perm ls) :
+    PhraseSlop.exactOff ls' = phraseExact ls ∧ PhraseSlop.exactOn ls' = phraseExact ls := by
+  have hlen' : 2 ≤ ls'.length := by rw [hperm.length_eq]; exact hlen
+  have hs' : ∀ l ∈ ls', l.Pairwise (· ≤ ·) := fun l hl => hsorted l (hperm.mem_iff.mp hl)
+  have hne : ls' ≠ [] := by intro h; rw [h] at hlen'; simp at hlen'
+  have h := PhraseSlop.exact_impl_eq_spec ls' hlen' hs'
+  have hp := PhraseSlop.phraseExact_perm ls' ls hne hperm
+  exact ⟨h.1.trans hp, h.2.trans hp⟩
+
+/-! ## alignment arithmetic of phrases and phrase prefixes (offsets, gaps) -/
+
+/-- the common offset on which the position lists are aligned does not matter: any `mx` above
+every term offset gives the same exact and sloppy matches as `maxOff terms` (this is what allows the
+phrase-prefix scorer to align the full terms on the maximum of *all* offsets, the prefix's included) -/
+theorem C03_phrase_alignment_shift_invariant (d : ADoc) (f mx : Nat) (terms : List (Nat × Bytes))
+    (slop : Nat) (hmx : maxOff terms ≤ mx) :
+    phraseExact (adjusted d f mx terms) = phraseExact (adjusted d f (maxOff terms) terms)
+      ∧ phraseSlop (adjusted d f mx terms) slop = phraseSlop (adjusted d f (maxOff terms) terms) slop := by
+  have e : mx = maxOff terms + (mx - maxOff terms) := by omega
+  rw [e, adjusted_shift d f (maxOff terms) (mx - maxOff terms) terms (fun ot h => le_maxOff h),
+    phraseExact_shift, phraseSlop_shift]
+  exact ⟨rfl, rfl⟩
+
+/-- exact phrase, any number of terms, arbitrary offsets: a match is a choice of one position per
+term such that all positions minus their offsets coincide -/
+theorem C03_phrase_exact_iff (d : ADoc) (f : Nat) (terms : List (Nat × Bytes)) (hne : terms ≠ []) :
+    semPhrase d f terms 0 = true ↔
+      ∃ v, ∀ ot ∈ terms, ∃ pos ∈ positionsOf d f ot.2, pos + (maxOff terms - ot.1) = v := by
+  have hadj : adjusted d f (maxOff terms) terms ≠ [] := by
+    unfold adjusted; simpa using hne
+  simp only [semPhrase, if_true]
+  rw [phraseExact_iff _ hadj]
+  constructor
+  · rintro ⟨v, h⟩; exact ⟨v, (mem_adjusted_iff d f _ terms v).mp h⟩
+  · rintro ⟨v, h⟩; exact ⟨v, (mem_adjusted_iff d f _ terms v).mpr h⟩
+
+/-- phrase prefix with arbitrary offsets (a gap may precede the prefix term): with
+`mx = max (maxOff terms) poff`, a match is a position of some term starting with `pre` and one
+position per full term, all aligned on the same value -/
+theorem C03_phrase_prefix_iff (d : ADoc) (f : Nat) (terms : List (Nat × Bytes)) (poff : Nat) (pre : Bytes)
+    (hne : terms ≠ []) :
+    semPhrasePrefix d f terms poff pre = true ↔
+      ∃ v, (∃ p ∈ d.postings, (p.field == f && isPrefix pre p.term) = true
+              ∧ ∃ pos ∈ p.positions, pos + (max (maxOff terms) poff - poff) = v)
+        ∧ ∀ ot ∈ terms, ∃ pos ∈ positionsOf d f ot.2, pos + (max (maxOff terms) poff - ot.1) = v := by
+  have hadj : adjusted d f (max (maxOff terms) poff) terms ≠ [] := by
+    unfold adjusted; simpa using hne
+  have hsem : semPhrasePrefix d f terms poff pre
+      = phraseExact (((d.postings.filter (fun p => p.field == f && isPrefix pre p.term)).flatMap
+          (fun p => p.positions.map (· + (max (maxOff terms) poff - poff))))
+          :: adjusted d f (max (maxOff terms) poff) terms) := by
+    unfold semPhrasePrefix
+    simp only
+  rw [hsem]
+  · rw [phraseExact_iff _ (by simp)]
+    constructor
+    · rintro ⟨v, h⟩
+      refine ⟨v, ?_, (mem_adjusted_iff d f _ terms v).mp (fun l hl => h l (by simp [hl]))⟩
+      have hs := h _ (List.mem_cons_self)
+      obtain ⟨p, hp, hv⟩ := List.mem_flatMap.mp hs
+      obtain ⟨pos, hpos, he⟩ := List.mem_map.mp hv
+      have hp' := List.mem_filter.mp hp
+      exact ⟨p, hp'.1, hp'.2, pos, hpos, he⟩
+    · rintro ⟨v, ⟨p, hp, hpre, pos, hpos, he⟩, hall⟩
+      refine ⟨v, ?_⟩
+      intro l hl
+      rcases List.mem_cons.mp hl with rfl | hl
+      · exact List.mem_flatMap.mpr ⟨p, List.mem_filter.mpr ⟨hp, hpre⟩, List.mem_map.mpr ⟨pos, hpos, he⟩⟩
+      · exact (mem_adjusted_iff d f _ terms v).mpr hall l hl
+
+/-- one full term at offset 0 and the prefix term `g` positions later (`g - 1` tokens in between):
+a match is an occurrence of the full term followed, exactly `g` positions later, by a term that
+starts with the prefix -/
+theorem C03_phrase_prefix_gap (d : ADoc) (f : Nat) (t pre : Bytes) (g : Nat) :
+    semPhrasePrefix d f [(0, t)] g pre = true ↔
+      ∃ pos ∈ positionsOf d f t, ∃ p ∈ d.postings,
+        (p.field == f && isPrefix pre p.term) = true ∧ pos + g ∈ p.positions := by
+  rw [C03_phrase_prefix_iff d f [(0, t)] g pre (by simp)]
+  have hm : max (maxOff [(0, t)]) g = g := by simp [maxOff]
+  rw [hm]
+  constructor
+  · rintro ⟨v, ⟨p, hp, hpre, pos', hpos', he'⟩, hall⟩
+    obtain ⟨pos, hpos, he⟩ := hall (0, t) (by simp)
+    refine ⟨pos, hpos, p, hp, hpre, ?_⟩
+    have : pos + g = pos' := by simp at he he'; omega
+    rw [this]; exact hpos'
+  · rintro ⟨pos, hpos, p, hp, hpre, hmem⟩
+    refine ⟨pos + g, ⟨p, hp, hpre, pos + g, hmem, by simp⟩, ?_⟩
+    intro ot hot
+    simp at hot; subst hot
+    exact ⟨pos, hpos, by simp⟩
+
+/-! ## range over a numeric JSON path: bound type × column type -/
+
+/-- `search_on_json_numerical_field` + `transform_from_f64_bounds`: for every bound kind (inclusive /
+exclusive / unbounded), bound type (i64 / u64 / f64 term; f64 values h/2 with |h| < 2^53) and integer
+column type (i64 / u64) the converted bounds select exactly the values of the column that satisfy the
+numeric meaning of the range — except for the combinations excluded by `lowerOk` / `upperOk`
+(counterexamples below). In particular a negative i64 upper bound on a u64 column selects nothing
+(`Excluded(0)`), a negative lower bound everything, a u64 upper bound above i64::MAX on an i64 column
+everything, a negative fractional f64 lower bound and a positive fractional f64 upper bound are
+truncated inward. -/
+theorem C03_json_range_coercion_partial (col : JsonRange.ColT) (lo hi : JsonRange.B) (v : Int)
+    (hv : JsonRange.inCol col v) (hlo : lo.wf) (hhi : hi.wf)
+    (hokl : JsonRange.lowerOk col lo = true) (hoku : JsonRange.upperOk col hi = true) :
+    JsonRange.implMatch col lo hi v = JsonRange.specMatch lo hi v := by
+  unfold JsonRange.implMatch JsonRange.coerce
+  rw [JsonRange.inRangeN_eq, JsonRange.specMatch_eq, JsonRange.lower_exact col lo v hv hlo hokl,
+    JsonRange.upper_exact col hi v hv hhi hoku]
+
+/-- the repaired table (the three rows as `tools/fixes/pending/C03-json-range-bound-conversions.patch`
+writes them) is exact for every bound kind, bound type and integer column type, without any side
+condition -/
+theorem C03_json_range_coercion (col : JsonRange.ColT) (lo hi : JsonRange.B) (v : Int)
+    (hv : JsonRange.inCol col v) (hlo : lo.wf) (hhi : hi.wf) :
+    JsonRange.implMatchG JsonRange.Guards.repaired col lo hi v = JsonRange.specMatch lo hi v := by
+  unfold JsonRange.implMatchG
+  rw [JsonRange.inRangeN_eq, JsonRange.specMatch_eq, JsonRange.lower_exact_repaired col lo v hv hlo,
+    JsonRange.upper_exact_repaired col hi v hv hhi]
+
+/-- the table the driver executes follows the guards read from the source: it is the pinned table
+(exact under `lowerOk` / `upperOk`) or the repaired one (exact), whichever the source has -/
+theorem C03_json_range_coercion_extracted (col : JsonRange.ColT) (lo hi : JsonRange.B) (v : Int)
+    (hv : JsonRange.inCol col v) (hlo : lo.wf) (hhi : hi.wf)
+    (hg : JsonRange.Guards.extracted = JsonRange.Guards.repaired
+          ∨ (JsonRange.Guards.extracted = JsonRange.Guards.pinned
+              ∧ JsonRange.lowerOk col lo = true ∧ JsonRange.upperOk col hi = true)) :
+    JsonRange.implMatchG JsonRange.Guards.extracted col lo hi v = JsonRange.specMatch lo hi v := by
+  rcases hg with hg | ⟨hg, hl, hu⟩
+  · rw [hg]; exact C03_json_range_coercion col lo hi v hv hlo hhi
+  · rw [hg, JsonRange.implMatchG_pinned]
+    exact C03_json_range_coercion_partial col lo hi v hv hlo hhi hl hu
+
+/-- integer-typed bounds (i64 / u64 terms): only the lower-bound condition remains -/
+theorem C03_json_int_range_coercion_partial (col : JsonRange.ColT) (lo hi : JsonRange.B) (v : Int)
+    (hv : JsonRange.inCol col v) (hlo : lo.wf) (hhi : hi.wf) (hok : JsonRange.lowerOk col lo = true)
+    (hint : ∀ h, hi ≠ .incl (.f h) ∧ hi ≠ .excl (.f h)) :
+    JsonRange.implMatch col lo hi v = JsonRange.specMatch lo hi v := by
+  apply C03_json_range_coercion_partial col lo hi v hv hlo hhi hok
+  cases hi with
+  | unb => rfl
+  | incl x => cases x with
+    | f h => exact absurd rfl (hint h).1
+    | i w => rfl
+    | u w => rfl
+  | excl x => cases x with
+    | f h => exact absurd rfl (hint h).2
+    | i w => rfl
+    | u w => rfl
+
+/-- f64 column (a path that received a float): every bound — i64, u64 or f64 term — is converted
+with its kind preserved, and selects exactly the values satisfying the numeric meaning, as long as
+the numbers involved convert to binary64 exactly (half-units below 2^53); only the order of the
+encoded values matters (`C03_f64_to_u64_strictMono`) -/
+theorem C03_json_f64_column_range_exact (lo hi : JsonRange.B) (hv : Int)
+    (hs : -(2 ^ 53) < hv ∧ hv < 2 ^ 53) (hlo : lo.small) (hhi : hi.small) :
+    JsonRange.implMatchF lo hi hv = JsonRange.specMatchF lo hi hv :=
+  JsonRange.f64_column_exact lo hi hv hs hlo hhi
+
+/-- the excluded u64 combination is really wrong in the pinned code: `attrs.n:[9223372036854775808 TO *]`
+(a u64 term) on a path whose column is i64 is converted to `Excluded(i64::MAX as u64)` in the
+column's *encoded* space, i.e. to "value ≥ 0", instead of "nothing" -/
+theorem C03_json_u64_lower_bound_on_i64_column_counterexample :
+    JsonRange.implMatch .i64 (.incl (.u (2 ^ 63))) .unb 5 = true
+      ∧ JsonRange.specMatch (.incl (.u (2 ^ 63))) .unb 5 = false
+      ∧ JsonRange.implMatch .i64 (.incl (.u (2 ^ 63))) .unb (-5) = false
+      ∧ JsonRange.lowerOk .i64 (.incl (.u (2 ^ 63))) = false := by
+  decide
+
+/-- the excluded f64 combinations are really wrong in the pinned code: an upper bound -1.5 on a
+u64 column becomes Unbounded (0 matches `[* TO -1.5]`); a lower bound 2.5 becomes Included(2)
+(2 matches `[2.5 TO *]`); an upper bound -2.5 on an i64 column becomes Included(-2) -/
+theorem C03_json_f64_bound_counterexamples :
+    JsonRange.implMatch .u64 .unb (.incl (.f (-3))) 0 = true
+      ∧ JsonRange.specMatch .unb (.incl (.f (-3))) 0 = false
+      ∧ JsonRange.implMatch .i64 (.incl (.f 5)) .unb 2 = true
+      ∧ JsonRange.specMatch (.incl (.f 5)) .unb 2 = false
+      ∧ JsonRange.implMatch .i64 .unb (.incl (.f (-5))) (-2) = true
+      ∧ JsonRange.specMatch .unb (.incl (.f (-5))) (-2) = false
+      ∧ JsonRange.upperOk .u64 (.incl (.f (-3))) = false ∧ JsonRange.lowerOk .i64 (.incl (.f 5)) = false
+      ∧ JsonRange.upperOk .i64 (.incl (.f (-5))) = false := by
+  decide
+
 /-! ## non-vacuity -/
 
 /-- the classifier that never specialises is sound on every leaf -/
@@ -467,6 +735,43 @@ example : (-1 : Int) = (BitVec.ofNat 64 (2^64 - 1)).toInt ∧ (BitVec.ofNat 64 5
 example : OrderEnc.f64Key (BitVec.ofNat 64 (2^63)) < OrderEnc.f64Key (BitVec.ofNat 64 0) := by decide
 example : (300 : Nat) < 256 ^ 2 ∧ OrderEnc.be 2 300 = [1, 44] := by decide
 example : bndBelow 2 (BndN.incl 300) := by show 300 < 256 ^ 2; decide
+example : JsonRange.inCol .u64 0 ∧ (JsonRange.B.excl (.i (-3))).wf ∧ JsonRange.lowerOk .u64 (.excl (.i (-3))) = true
+    ∧ JsonRange.implMatch .u64 .unb (.excl (.i (-3))) 0 = false
+    ∧ JsonRange.upperOk .u64 (.excl (.i (-3))) = true ∧ JsonRange.upperOk .i64 (.incl (.f 5)) = true := by
+  refine ⟨?_, ?_, by decide, by decide, by decide, by decide⟩
+  · show (0 : Int) ≤ 0 ∧ (0 : Int) < 2 ^ 64
+    decide
+  · show -(2 ^ 63) ≤ (-3 : Int) ∧ (-3 : Int) ≤ JsonRange.I64MAX
+    decide
+example : PhraseSlop.exactOff [[4, 9], [1, 4, 7], [4]] = true ∧ PhraseSlop.exactOn [[4], [1, 4, 7], [4, 9]] = true
+    ∧ PhraseSlop.exactOff [[4, 9], [1, 5, 7], [4]] = false ∧ ([4, 9] : List Nat).Pairwise (· ≤ ·)
+    ∧ ([[4], [1, 4, 7], [4, 9]] : List (List Nat)).Perm [[4, 9], [1, 4, 7], [4]] := by
+  refine ⟨by decide, by decide, by decide, by decide, ?_⟩
+  exact (List.Perm.swap _ _ _).trans ((List.Perm.cons _ (List.Perm.swap _ _ _)).trans (List.Perm.swap _ _ _))
+-- "a x b…": full term a at 0, a term starting with b two positions later
+example :
+    let d : ADoc := ⟨1, [⟨1, [97], [0]⟩, ⟨1, [120], [1]⟩, ⟨1, [98, 99], [2]⟩], []⟩
+    semPhrasePrefix d 1 [(0, [97])] 2 [98] = true ∧ semPhrasePrefix d 1 [(0, [97])] 1 [98] = false
+      ∧ maxOff [(0, [97]), (2, [98])] ≤ 5 := by decide
+example : JsonRange.Guards.extracted = JsonRange.Guards.repaired ∨ JsonRange.Guards.extracted = JsonRange.Guards.pinned := by
+  decide
+example : JsonRange.implMatchG JsonRange.Guards.repaired .u64 .unb (.incl (.f (-3))) 0 = false
+    ∧ JsonRange.implMatchG JsonRange.Guards.repaired .i64 (.incl (.f 5)) .unb 2 = false
+    ∧ JsonRange.implMatchG JsonRange.Guards.repaired .i64 (.incl (.u (2 ^ 63))) .unb 5 = false := by decide
+example : (JsonRange.B.excl (.f (-3))).small ∧ (JsonRange.B.incl (.i 7)).small
+    ∧ JsonRange.implMatchF (.excl (.f (-3))) (.incl (.i 7)) 5 = true
+    ∧ JsonRange.implMatchF (.excl (.f (-3))) (.incl (.i 7)) (-3) = false := by
+  refine ⟨?_, ?_, by decide, by decide⟩
+  · show -(2 ^ 53) < (-3 : Int) ∧ (-3 : Int) < 2 ^ 53
+    decide
+  · show -(2 ^ 53) < (2 * 7 : Int) ∧ (2 * 7 : Int) < 2 ^ 53
+    decide
+example :
+    let d1 : ADoc := ⟨1, [⟨1, [97], [0]⟩], []⟩
+    let s : Seg := ⟨[d1, d1, ⟨3, [], []⟩], [true, true, true]⟩
+    s.alive.all id = true ∧ termCountShortcut s 1 [97] = 2
+      ∧ (interp 3 (compile leafTree true false s.docs false (.leaf (.term 1 [97])))) = [0, 1] := by
+  decide
 example : (([⟨1, [], []⟩, ⟨2, [], []⟩] : List ADoc)).Perm [⟨2, [], []⟩, ⟨1, [], []⟩] :=
   List.Perm.swap _ _ _
 
